@@ -51,4 +51,128 @@ theorem storedBlock_at (s : Bytes) (q len : Nat) (out : Bytes)
   have a3 : ¬ (q + 5 + len > s.size) := by omega
   simp [a1, a2, a3]
 
+/-! ### streams made of stored blocks -/
+
+/-- A stored block carrying `d` sits at byte `q` of `s`; `fin` is its BFINAL bit.  The five
+padding bits of the header byte are arbitrary. -/
+structure BlkAt (s : Bytes) (q : Nat) (d : Bytes) (fin : Bool) : Prop where
+  hdr : (s.getD q 0).toNat % 8 = (if fin then 1 else 0)
+  len : (s.getD (q + 1) 0).toNat + 256 * (s.getD (q + 2) 0).toNat = d.size
+  nlen : (s.getD (q + 3) 0).toNat + 256 * (s.getD (q + 4) 0).toNat = 65535 - d.size
+  le : d.size ≤ 65535
+  fits : q + 5 + d.size ≤ s.size
+  data : s.extract (q + 5) (q + 5 + d.size) = d
+
+/-- Non-final stored blocks carrying `ds`, back to back from byte `q`. -/
+def Run (s : Bytes) : Nat → List Bytes → Prop
+  | _, [] => True
+  | q, d :: ds => BlkAt s q d false ∧ Run s (q + 5 + d.size) ds
+
+/-- Byte offset just after the blocks `ds` that start at `q`. -/
+def endOf : Nat → List Bytes → Nat
+  | q, [] => q
+  | q, d :: ds => endOf (q + 5 + d.size) ds
+
+/-- Concatenation of the block payloads. -/
+def flat : List Bytes → Bytes
+  | [] => #[]
+  | d :: ds => d ++ flat ds
+
+theorem endOf_ge (q : Nat) (ds : List Bytes) : q + 5 * ds.length ≤ endOf q ds := by
+  induction ds generalizing q with
+  | nil => simp [endOf]
+  | cons d ds ih => have := ih (q + 5 + d.size); simp [endOf, List.length_cons] at *; omega
+
+/-- One step of the block loop over a stored block at a byte boundary. -/
+theorem blocks_blk (s : Bytes) (cap : Option Nat) (lo fuel q : Nat) (out d : Bytes) (fin : Bool)
+    (hb : BlkAt s q d fin) :
+    blocks s cap lo (fuel + 1) (8 * q) out =
+      if fin then ⟨.done, 8 * (q + 5 + d.size), out ++ d⟩
+      else if capReached cap ((out ++ d).size - lo) then ⟨.capped, 8 * (q + 5 + d.size), out ++ d⟩
+      else blocks s cap lo fuel (8 * (q + 5 + d.size)) (out ++ d) := by
+  have hq : q < s.size := by have := hb.fits; omega
+  have hav : ¬ avail s (8 * q) < 3 := by have := avail_byte s q hq; omega
+  obtain ⟨hfin, htyp⟩ := header_bits s q
+  have hh := hb.hdr
+  have hst := storedBlock_at s q d.size out hb.fits hb.len hb.nlen hb.le
+  rw [hb.data] at hst
+  generalize (s.getD q 0).toNat = hv at hfin htyp hh
+  have ht : bitsLE s (8 * q + 1) 2 = 0 := by rw [htyp]; split at hh <;> omega
+  have hf : bitAt s (8 * q) = if fin then 1 else 0 := by rw [hfin]; split at hh <;> simp_all <;> omega
+  rw [blocks]
+  simp only [hav, if_false, ht, if_true, hst, hf]
+  cases fin <;> simp
+
+/-- The spec decoder on a stream of stored blocks (any padding bits, any trailing bytes). -/
+theorem blocks_run (s : Bytes) (lo fuel q : Nat) (out : Bytes) (ds : List Bytes) (dl : Bytes)
+    (hr : Run s q ds) (hl : BlkAt s (endOf q ds) dl true) (hf : ds.length < fuel) :
+    blocks s none lo fuel (8 * q) out =
+      ⟨.done, 8 * (endOf q ds + 5 + dl.size), out ++ flat ds ++ dl⟩ := by
+  induction ds generalizing q out fuel with
+  | nil =>
+    obtain ⟨f, rfl⟩ : ∃ f, fuel = f + 1 := ⟨fuel - 1, by simp at hf; omega⟩
+    simp only [endOf] at hl ⊢
+    rw [blocks_blk s none lo f q out dl true hl]
+    simp [flat]
+  | cons d ds ih =>
+    obtain ⟨f, rfl⟩ : ∃ f, fuel = f + 1 := ⟨fuel - 1, by simp at hf; omega⟩
+    obtain ⟨hb, hr'⟩ := hr
+    simp only [endOf] at hl ⊢
+    rw [blocks_blk s none lo f q out d false hb]
+    simp only [capReached, Bool.false_eq_true, if_false]
+    rw [ih (q := q + 5 + d.size) (out := out ++ d) (fuel := f) hr' hl (by simp at hf; omega)]
+    simp [flat, Array.append_assoc]
+
+/-- Without a preset dictionary `inflateRaw` is the block loop from bit 0. -/
+theorem inflateRaw_nodict (s : Bytes) (cap : Option Nat) :
+    inflateRaw #[] s cap =
+      { blocks s cap 0 (8 * s.size + 1) 0 #[] with
+        out := (blocks s cap 0 (8 * s.size + 1) 0 #[]).out.extract 0 (blocks s cap 0 (8 * s.size + 1) 0 #[]).out.size } := by
+  have h0 : ¬ (0 > windowSize) := by simp [windowSize]
+  simp only [inflateRaw, Array.size_empty, h0, if_false]
+
+/-- **`inflate` of a stream of stored blocks** is the concatenation of the payloads, and the
+number of bytes used is the end of the final block. -/
+theorem inflate_stored (s : Bytes) (ds : List Bytes) (dl : Bytes)
+    (hr : Run s 0 ds) (hl : BlkAt s (endOf 0 ds) dl true) :
+    inflate s = some (flat ds ++ dl, endOf 0 ds + 5 + dl.size) := by
+  have hlen : ds.length < 8 * s.size + 1 := by
+    have := endOf_ge 0 ds; have := hl.fits; omega
+  have := blocks_run s 0 (8 * s.size + 1) 0 #[] ds dl hr hl hlen
+  simp only [inflate, inflateDict, inflateRaw_nodict, Nat.mul_zero] at this ⊢
+  rw [this]
+  simp
+  refine ⟨?_, by omega⟩
+  rw [Array.extract_eq_self_of_le (by omega)]
+
+/-- With an output cap (`io.ReadFull` into a buffer of `n` bytes): the decoder stops after a whole
+number of blocks, with a prefix of the full output that is either everything or at least `n` bytes. -/
+theorem blocks_run_cap (s : Bytes) (n lo fuel q : Nat) (out : Bytes) (ds : List Bytes) (dl : Bytes)
+    (hr : Run s q ds) (hl : BlkAt s (endOf q ds) dl true) (hf : ds.length < fuel) :
+    ∃ o rest, (blocks s (some n) lo fuel (8 * q) out).out = out ++ o ∧ flat ds ++ dl = o ++ rest ∧
+      (((blocks s (some n) lo fuel (8 * q) out).status = .done ∧ rest = #[]) ∨
+       ((blocks s (some n) lo fuel (8 * q) out).status = .capped ∧ n ≤ (out ++ o).size - lo)) := by
+  induction ds generalizing q out fuel with
+  | nil =>
+    obtain ⟨f, rfl⟩ : ∃ f, fuel = f + 1 := ⟨fuel - 1, by simp at hf; omega⟩
+    simp only [endOf] at hl
+    rw [blocks_blk s (some n) lo f q out dl true hl]
+    exact ⟨dl, #[], by simp, by simp [flat], Or.inl ⟨by simp, rfl⟩⟩
+  | cons d ds ih =>
+    obtain ⟨f, rfl⟩ : ∃ f, fuel = f + 1 := ⟨fuel - 1, by simp at hf; omega⟩
+    obtain ⟨hb, hr'⟩ := hr
+    simp only [endOf] at hl
+    rw [blocks_blk s (some n) lo f q out d false hb]
+    simp only [Bool.false_eq_true, if_false]
+    split
+    · rename_i hc
+      refine ⟨d, flat ds ++ dl, by simp, by simp [flat, Array.append_assoc], Or.inr ⟨by simp, ?_⟩⟩
+      simpa [capReached] using hc
+    · obtain ⟨o, rest, h1, h2, h3⟩ := ih (q := q + 5 + d.size) (out := out ++ d) (fuel := f) hr' hl
+        (by simp at hf; omega)
+      refine ⟨d ++ o, rest, by rw [h1]; simp [Array.append_assoc], by simp [flat, Array.append_assoc, h2], ?_⟩
+      rcases h3 with h3 | h3
+      · exact Or.inl h3
+      · exact Or.inr ⟨h3.1, by simpa [Array.append_assoc] using h3.2⟩
+
 end WuffsVerif.Flate.Spec
